@@ -146,7 +146,7 @@ def run(ctx):
     facts = ctx.facts
     with ctx.rule("C09.REDISCOVER", "match re-discovery is confined to the reported range", floor=8, kind="GUARD/FLOW") as r:
         rediscover_rule(ctx, r)
-    with ctx.rule("C09.FRAME", "JSON framing: begin dominates, at most once, end only after begin", floor=6, kind="DOM/GUARD") as r:
+    with ctx.rule("C09.FRAME", "JSON framing: begin dominates, at most once, end only after begin", floor=7, kind="DOM/GUARD") as r:
         WB = JS + "::write_begin_message"
         WM = JSON + "::write_message"
         for m in ("matched", "context"):
@@ -193,6 +193,17 @@ def run(ctx):
             r.ok("always", "begin() writes the begin message eagerly only under always_begin_end", fn=bg, nontrivial=False)
         else:
             r.bad("always", "begin() eager framing is not tied to always_begin_end", fn=bg)
+        # begin_printed is per search: a sink used for a second search (the library allows it; a search that failed leaves no
+        # end behind) must not start with the flag of the previous one, or finish() writes an `end` that has no `begin`
+        resets = [bb for bb, j, st in bg.stmts() if st["k"] == "assign" and (JS, "begin_printed") in fields_of_place(st["place"])
+                  and (op_const(st["rv"].get("a", {})) or {}).get("val") == 0]
+        rets = [bb for bb, b_ in enumerate(bg.blocks) if b_["term"]["k"] == "return"]
+        if resets and not C.all_paths_pass(bg, [0], resets, [c.bb for c in wbc] + rets):
+            r.ok("begin|reset", "begin() clears begin_printed before anything else can be written", fn=bg)
+        else:
+            r.bad("begin|reset", "JSONSink::begin resets its other per-search state but not begin_printed: on a sink that is used "
+                  "again, a search without matches writes an `end` with no `begin` (also right after a search that failed, "
+                  "which reads as its completion)", fn=bg, construct="begin")
 
     with ctx.rule("C09.DATA", "text iff valid UTF-8, base64 bytes otherwise (decision + serializer arms)", floor=4, exhaustive=True,
                   kind="TABLE/ARMS") as r:
@@ -458,6 +469,20 @@ def run(ctx):
             e = peel(e)
             return is_call(e, "[T]::len", "core::slice::<impl [T]>::len") and any(is_call(x, "core::iter::traits::iterator::Iterator::next") for x in walk(e)) \
                 and not any(is_call(x, "grep_matcher::Match::len") for x in walk(e))
+        OM_CFG = P + "::standard::Config"
+
+        def om_switches(g):
+            return cond_switches(g, lambda e: any(x.k == "field" and x[3] == "only_matching" and x[2] == OM_CFG for x in walk(e)) and
+                                 not any(x.k == "field" and x[3] in ("per_match", "replacement") for x in walk(e)), ExprBuilder(g))
+
+        def under_only_matching(g, bb, depth=0):
+            sw_ = om_switches(g)
+            if sw_ and not guarded(g, [bb], sw_, True):
+                return True
+            if depth >= 2:
+                return False
+            callers = [(h_, c_) for h_ in facts.fns.values() if h_.crate == "grep_printer" for c_ in h_.calls_to(g.path)]
+            return bool(callers) and all(under_only_matching(h_, c_.bb, depth + 1) for h_, c_ in callers)
         nsite = 0
         for n_, f in sorted(facts.fns.items()):
             if not n_.startswith(P + "::standard::StandardImpl::"):
@@ -471,7 +496,21 @@ def run(ctx):
                 if is_base(e):
                     ok_, why = True, "the event's own offset"
                 elif e.k == "bin" and e[1] in ("Add", "AddWithOverflow") and ((is_base(e[2]) and is_pos(e[3])) or (is_base(e[3]) and is_pos(e[2]))):
-                    ok_, why = True, "event offset + Match::start"
+                    # which Match? a line obtained by stepping through the event's bytes (what follows the prelude is that
+                    # line), or — only where --only-matching prints the matched text itself — a match
+                    pos = peel(e[3] if is_base(e[2]) else e[2])
+                    m_ = pos[3][0] if pos[3] else None
+                    stepped = m_ is not None and any(is_call(x, "grep_matcher::Match::new", "grep_matcher::Match::with_start",
+                                                             "grep_matcher::Match::with_end") for x in walk(m_))
+                    if stepped:
+                        ok_, why = True, "event offset + start of the line being printed"
+                    elif under_only_matching(f, c.bb):
+                        ok_, why = True, "event offset + start of the match (only-matching prints the match itself)"
+                    else:
+                        r.bad(key, "%s prints the offset of a match in front of a whole line (`%s`) outside --only-matching: the "
+                              "documented offset is the line's (--vimgrep -b gave the match's offset in line mode and the line's "
+                              "with -U)" % (n_.split("::")[-1], show(e)[:100]), fn=f, loc=c.loc, construct="offset")
+                        continue
                 elif e.k == "phi":
                     parts = [peel(x) for x in e[2]]
                     incs = [x for x in parts if not is_base(x)]
